@@ -30,6 +30,13 @@ def st_inner(ctx, fr, s, acc):
     mon = ctx.monitor
     if mon is not None:
         mon.enter_user()         # events of the inner build are not events of the build under test
+    # a byte-level write fault planned for the cache file of the build under test is not meant for the
+    # cache file of the inner build
+    from . import faults
+    proxy = faults._proxy
+    saved_plan = getattr(proxy, 'plan', None) if proxy is not None else None
+    if proxy is not None:
+        proxy.plan = None
     try:
         os.makedirs(base, exist_ok=True)
         cache = os.path.join(base, 'state', 'cache.gz')
@@ -82,6 +89,8 @@ def st_inner(ctx, fr, s, acc):
     except Exception as e:  # noqa
         ctx.issue('inner_build_failed', mode=mode, error=repr(e)[:160])
     finally:
+        if proxy is not None:
+            proxy.plan = saved_plan
         import shutil
         shutil.rmtree(base, ignore_errors=True)
         if mon is not None:
